@@ -346,6 +346,11 @@ class Repo:
                 return fi
         # moved to another module of the package (and imported back, or used from there): a private module-level function with this
         # name that exists exactly once elsewhere is the same function
+        if "." in qual and "<locals>" not in qual:
+            # a method turned into a module-level function of the same module (engine/inline.py gives it its old name back)
+            leaf = qual.split(".")[-1]
+            if leaf in m.functions:
+                return m.functions[leaf]
         if "." not in qual:
             hits = [fi for mm in self.modules.values() if mm is not m for fi in mm.all_funcs if fi.qualname == qual]
             if len(hits) == 1:
